@@ -180,6 +180,16 @@ EXPORT errno_t _wcsnatcmp_s_chk(const wchar_t *dest, rsize_t dmax,
         rsize_t l1, l2;
         errno_t rc;
 
+        /* wcsfc_s reads its source up to the terminator: an operand without
+           one inside its bound must not be handed to it */
+        if (unlikely(_wcsnlen_s_chk(dest, dmax, destbos) >= dmax ||
+                     _wcsnlen_s_chk(src, smax, srcbos) >= smax)) {
+            invoke_safe_str_constraint_handler("wcsnatcmp_s"
+                                               ": dest/src unterminated",
+                                               (void *)dest, ESUNTERM);
+            return RCNEGATE(ESUNTERM);
+        }
+
         d1 = (wchar_t *)malloc(2 * destsz);
         rc = wcsfc_s(d1, dmax * 2, (wchar_t * restrict) dest, &l1);
         if (rc != EOK) {
